@@ -228,6 +228,25 @@ INTERNAL_ERROR_TYPES = (NameError, AttributeError, TypeError, KeyError, IndexErr
                         RecursionError, UnicodeError)
 
 
+def _fatal_error_in_library(text):
+    """faulthandler dump of a dying shard -> mechanism key when the innermost Python frame of the crashing thread is a frame
+    of the library under test, else None"""
+    import re
+    m = re.search(r"Current thread [^\n]*\n((?:  [^\n]*\n)+)", text)
+    if not m:
+        return None
+    frames = re.findall(r'File "([^"]+)", line \d+ in (\S+)', m.group(1))
+    if not frames:
+        return None
+    fname, func = frames[0]
+    fname = os.path.realpath(fname)
+    repo = os.path.realpath(REPO)
+    if not fname.startswith(repo + os.sep) or (os.sep + "test" + os.sep) in fname:
+        return None
+    kind = "segmentation-fault" if "Segmentation fault" in text else "fatal-error"
+    return "interpreter-crash-in-library:%s:%s:%s" % (kind, os.path.basename(fname), func)
+
+
 def _internal_error_in_library(exc):
     """-> mechanism key when exc is a programming-error type raised from a frame of the library under test, else None"""
     if not isinstance(exc, INTERNAL_ERROR_TYPES):
@@ -290,9 +309,16 @@ def run_check(modname, tier, seed, nshards=None, shard_timeout=None):
             except Exception as e:  # pragma: no cover
                 total.inconclusive.append("shard %d result unreadable: %r" % (i, e))
         else:
-            total.inconclusive.append(
-                "shard %d produced no result (exit %s): %s"
-                % (i, p.returncode, (stdout or b"")[-800:].decode("utf8", "replace")))
+            text = (stdout or b"").decode("utf8", "replace")
+            crash = _fatal_error_in_library(text) if (p.returncode or 0) < 0 else None
+            if crash is not None:
+                # the interpreter itself died (segmentation fault, abort) and faulthandler shows the thread that was running
+                # inside the library under test: as much a finding as a programming error escaping from it
+                total.violation(crash, "shard %d of %s was killed by signal %d: %s" % (i, tier, -p.returncode, text[-900:]),
+                                ("shard-crash", tier, seed, i, nshards))
+                total.case(("shard-crash", i))
+            else:
+                total.inconclusive.append("shard %d produced no result (exit %s): %s" % (i, p.returncode, text[-800:]))
     try:
         for f in os.listdir(work):
             os.unlink(os.path.join(work, f))
